@@ -1,6 +1,7 @@
 package main
 
 import (
+	"encoding/json"
 	"os"
 	"fmt"
 	"math/rand"
@@ -226,6 +227,9 @@ type schedResult struct {
 	Hits       map[string]int `json:"hits"`
 	Violations []Violation    `json:"violations"`
 	Events     int            `json:"events"`
+	// client scenarios: the log in the line format of the Lean driver mode `cfine` (does the interleaving model explain it?)
+	Log  []string `json:"log,omitempty"`
+	Idle bool     `json:"idle,omitempty"`
 }
 
 func runScenario(sc scenario, stallSite string, stallIdx int) schedResult {
@@ -342,7 +346,11 @@ func runScenario(sc scenario, stallSite string, stallIdx int) schedResult {
 		_ = c.Start("ws://fake")
 		var connMu sync.RWMutex
 		send = func(string) { _ = c.SendRequest(core.NewHeartbeatRequest()) }
+		// one incoming frame at a time, as the read pump of the real websocket client does (the handler runs on it)
+		var readPump sync.Mutex
 		deliver = func(_ string, data []byte) {
+			readPump.Lock()
+			defer readPump.Unlock()
 			connMu.RLock()
 			defer connMu.RUnlock()
 			if fc.IsConnected() {
@@ -409,6 +417,16 @@ func runScenario(sc scenario, stallSite string, stallIdx int) schedResult {
 	}
 	l.rmu.Unlock()
 	res.Events = len(evs)
+	if !sc.server {
+		for _, e := range evs {
+			if e.id != "" {
+				res.Log = append(res.Log, e.kind+" "+e.id)
+			} else {
+				res.Log = append(res.Log, e.kind)
+			}
+		}
+		res.Idle = !(wedged || len(stuck) > 0 || !quiet)
+	}
 	if os.Getenv("SCHED_DEBUG") != "" {
 		for _, e := range evs {
 			fmt.Fprintf(os.Stderr, "%8.2f %s %s %s\n", float64(e.t.Sub(start))/float64(schedT), e.kind, e.client, e.id)
@@ -583,6 +601,29 @@ func init() {
 				}
 			}
 		}
+		// the logs of the client runs, for the trace-inclusion check against the Lean interleaving model (driver mode cfine)
+		type clog struct {
+			Run  string   `json:"run"`
+			Idle bool     `json:"idle"`
+			Log  []string `json:"log"`
+		}
+		var logs []clog
+		for kk, r := range results {
+			if len(r.Log) > 0 {
+				f := strings.Split(allRuns[kk], "|")
+				var sc int
+				fmt.Sscan(f[0], &sc)
+				logs = append(logs, clog{Run: scenarios[sc].name + "|" + f[1] + "|" + f[2], Idle: r.Idle, Log: r.Log})
+			}
+		}
+		if b, err := json.Marshal(logs); err == nil {
+			lp := os.Getenv("FINE_LOG_PATH")
+			if lp == "" {
+				lp = verifRoot() + "/gen/sched_client_logs.json"
+			}
+			_ = os.WriteFile(lp, b, 0o644)
+		}
+		rep.Stats["client_logs_written"] = len(logs)
 		rep.Stats["runs"] = len(allRuns)
 		rep.Samples = []interface{}{map[string]interface{}{"scenario": "s-race-timeout-send", "gate": "qmap.Get<", "hit": 3}}
 		return rep
